@@ -141,7 +141,8 @@ def _jobs(tier, seed):
         for w in words:
             t = gen.render(w, rng.choice(["none", "spaces"]) if g["terms"] is not icterms else "spaces")
             inputs |= {t, t.upper(), "".join(c.upper() if rng.random() < 0.5 else c.lower() for c in t)}
-        jobs.append({"g": g, "inputs": sorted(inputs), "origin": "det", "consume": True, "icase": True})
+        # (the keyword grammars overlap lexically -- "End" is also three identifiers: like the other overlap jobs they are read by C08 only)
+        jobs.append({"g": g, "inputs": sorted(inputs), "origin": "det", "consume": True, "icase": True, "overlap": g["terms"] is icterms})
     rng = random.Random(2000003 * (seed + 1))
     k = 0
     while k < p["nrand"]:
